@@ -343,6 +343,8 @@ impl ImplicitConversion {
             Some(DimensionCast(Scalar, Vector(_))) | Some(DimensionCast(Vector(1), Vector(_))) => {
                 VectorRank::Expand
             }
+            // A scalar fills all slots of a matrix as it does for a vector
+            Some(DimensionCast(Scalar, rssl_ir::NumericDimension::Matrix(_, _))) => VectorRank::Expand,
             Some(DimensionCast(Vector(_), Scalar)) => VectorRank::Contract,
             Some(DimensionCast(Vector(ref l), Vector(ref r))) if l > r => VectorRank::Contract,
             Some(DimensionCast(from, to)) => panic!("invalid vector cast {from:?} {to:?}"),
